@@ -23,6 +23,7 @@ META = {
     "assumptions": ["allocation happens only through items of crate `alloc` (or `std`)"],
     "not_decided": ["allocation inside std::sync::Once / std_detect / hex-simd internals (trusted, listed)", "serde format crates (documented to allocate)"],
 }
+TECHNIQUE = 'call-graph reachability to the alloc crate per configuration (with bounded callbacks), no_std/no_alloc type-check witness crate, API inventory'
 
 # the documented std-only conveniences: stream/file helpers and their error wrapper around std::io::Error
 ALLOC_OK_FUNCS_PREFIX = ("generate_easy_std::", "<errors::GeneratorOrIOError as ")
